@@ -153,8 +153,6 @@ class StepEvents:
         if hit is None:
             return []
         _, _, helper = hit
-        if not any(mutated_phase_attr(st_) for st_ in ast.walk(helper) if isinstance(st_, ast.stmt)):
-            return []
         params = [a.arg for a in helper.args.args if a.arg != "self"]
         amap = {}
         for pn, av in zip(params, call.args):
@@ -172,8 +170,16 @@ class StepEvents:
         for st_ in helper.body:
             if isinstance(st_, ast.Expr) and isinstance(st_.value, ast.Constant):
                 continue     # docstring
-            if isinstance(st_, (ast.If, ast.For, ast.While, ast.Try)) and any(mutated_phase_attr(x) for x in ast.walk(st_) if isinstance(x, ast.stmt)):
-                evs.append(("?", call))
+            if isinstance(st_, (ast.If, ast.For, ast.While, ast.Try)):
+                # a compound statement: opaque when anything inside it (directly or through further helpers of the hierarchy) is an event
+                inner_evs = []
+                for x in ast.walk(st_):
+                    if isinstance(x, ast.stmt) and not isinstance(x, (ast.If, ast.For, ast.While, ast.Try, ast.With)):
+                        x2 = Sub().visit(copy.deepcopy(x))
+                        ast.fix_missing_locations(x2)
+                        inner_evs.extend(self._events(x2, depth + 1))
+                if inner_evs:
+                    evs.append(("?", call))
                 continue
             st2 = Sub().visit(copy.deepcopy(st_))
             ast.fix_missing_locations(st2)
@@ -232,9 +238,10 @@ class ZeroOnPad:
     PRESERVE_CALLS = {"sqrt", "abs", "reshape", "view", "unsqueeze", "squeeze", "to", "clone", "detach", "type_as", "double",
                       "float", "expand_as", "expand", "contiguous", "neg", "square"}
 
-    def __init__(self, func: ast.AST, self_fields: Dict[str, ast.AST] = None, extra_z: Set[str] = frozenset()):
+    def __init__(self, func: ast.AST, self_fields: Dict[str, ast.AST] = None, extra_z: Set[str] = frozenset(), z_self_fields: Set[str] = frozenset()):
         self.defs = local_defs(func)
         self.self_fields = self_fields or {}
+        self.z_self_fields = set(z_self_fields)    # attributes of the driver object that a by-value rule has shown to vanish wherever mass_inverse does
         self.extra_z = set(extra_z)
         self._stack = set()
 
@@ -242,6 +249,8 @@ class ZeroOnPad:
         if isinstance(e, ast.Attribute):
             ch = attr_chain(e)
             if ch and len(ch) == 2 and ch[0] in ("molecule", "mol") and ch[1] in self.Z_ATTRS:
+                return True
+            if ch and len(ch) == 2 and ch[0] == "self" and ch[1] in self.z_self_fields:
                 return True
             if ch and len(ch) == 2 and ch[0] == "self" and ch[1] in self.self_fields:
                 key = "self." + ch[1]
